@@ -303,8 +303,8 @@ Section Batch.
           | None => (s', Raise OtherError)
           end
         end
-      | Rst =>     (* X_ref = None; num_instances = 0; _reset: self.mmd.reset().  X_queue is NOT cleared. *)
-        ({| s_ref := None; s_aux := s_aux s; s_iref := None; s_iaux := s_iaux s; s_n := 0; s_win := s_win s |}, Ok ONone)
+      | Rst =>     (* X_ref = None; num_instances = 0; _reset: self.mmd.reset(); self.X_queue.clear() *)
+        ({| s_ref := None; s_aux := s_aux s; s_iref := None; s_iaux := s_iaux s; s_n := 0; s_win := [] |}, Ok ONone)
       end
     end.
 
